@@ -55,14 +55,22 @@ def gen_meta(rng, box):
     return meta, name, files, version, single
 
 
+def case_stub(case_seed, version, single, name, files):
+    return {"case_seed": case_seed, "version": version, "single": single, "name": name,
+            "paths": [list(c) for c, _ in files]}
+
+
 def run_case(run, drv, case_seed):
     rng = random.Random(case_seed)
     with sandbox("c19") as box:
         base = os.path.join(box, "w", "x", "y")
-        dest = os.path.join(base, "dest")
+        meta, name, files, version, single = gen_meta(rng, box)
+        dname = "dest"
+        if name and "/" not in name and name not in (".", "..") and rng.random() < 0.5:
+            dname = name            # destination directory named like the torrent
+        dest = os.path.join(base, dname)
         os.makedirs(dest)
         os.makedirs(os.path.join(box, "outside"))
-        meta, name, files, version, single = gen_meta(rng, box)
         raw = refspec.encode(meta)
         mpath = os.path.join(base, "h.torrent")
         with open(mpath, "wb") as fd:
@@ -79,14 +87,37 @@ def run_case(run, drv, case_seed):
         os.makedirs(search, exist_ok=True)
         case = {"case_seed": case_seed, "version": version, "single": single, "name": name,
                 "paths": [list(c) for c, _ in files]}
+        raised = None
+        relative = rng.random() < 0.3
+        old_cwd = os.getcwd()
+        if relative:
+            # the same relative destination string used from two working directories in one
+            # process: each run may only write below ITS destination
+            other = os.path.join(box, "w", "elsewhere")
+            os.makedirs(os.path.join(other, dname))
+            os.chdir(other)
+            try:
+                with effects.traced(fence=[os.path.join(other, dname)]) as tr0:
+                    try:
+                        impl.rebuild([mpath], [search], dname)
+                    except Exception:
+                        pass
+            finally:
+                os.chdir(base)
+            if tr0.escapes:
+                run.fail("impl-vs-spec", dict(case_stub(case_seed, version, single, name, files), relative="first"),
+                         {"why": "attempted to write outside the destination",
+                          "operation": [str(x) for x in tr0.escapes[0]]})
         before = {k: v for k, v in snapshot(box).items()
                   if not (os.path.join(box, k) + os.sep).startswith(dest + os.sep)}
-        raised = None
-        with effects.traced(fence=[dest]) as tr:
-            try:
-                impl.rebuild([mpath], [search], dest)
-            except Exception as exc:
-                raised = type(exc).__name__
+        try:
+            with effects.traced(fence=[dest]) as tr:
+                try:
+                    impl.rebuild([mpath], [search], dname if relative else dest)
+                except Exception as exc:
+                    raised = type(exc).__name__
+        finally:
+            os.chdir(old_cwd)
         after = {k: v for k, v in snapshot(box).items()
                  if not (os.path.join(box, k) + os.sep).startswith(dest + os.sep)}
         if tr.escapes:
